@@ -72,6 +72,16 @@ prop("C06", True,
      "shape + dominating-condition extraction + wrapper-chain provenance + who-may-write over go/ssa",
      "DESIGN.md §2 C06")
 
+prop("C18", True,
+     "Static check of the persistence mechanism over all restart histories and crash points: every function that both Gets and Sets on storage.Storage (5 getters, 8 items) follows "
+     "load-or-generate-then-store with key agreement (constant keys paired, Set only on that Get's failure arm, stored bytes are the generator's output and are the bytes used, no generator on the load arm, "
+     "certificate generated from the loaded-or-stored key, key item settled before the certificate can be stored); storage Get/Set derive the database key identically; the token is adopted from the file only "
+     "when non-empty, the token path is only created by os.Rename of a fully written temporary file, write/rename errors are consumed. Crash-point coverage is by construction (atomic publish / store ordering), "
+     "not by enumeration of kill instants.",
+     "Trusts badger's atomic durable Set and POSIX rename atomicity.",
+     "load/store pairing by key + dominating-condition extraction + CFG ordering (reachability between stores) + who-may-create rule over go/ssa",
+     "DESIGN.md §2 C18")
+
 PENDING = {
  "C01": "check not built yet in this revision (design: DESIGN.md §2 C01)",
 }
